@@ -60,6 +60,52 @@ fn monitors() -> Vec<Box<dyn Monitor>> {
     ]
 }
 
+/// Adds to every monitor what does not depend on the property: the whole-API digest in the
+/// cold-start probe (after the monitor's own probe, or before it in every second child process)
+/// and from the three calling contexts.
+struct Wrapped(Box<dyn Monitor>);
+
+impl Monitor for Wrapped {
+    fn id(&self) -> &'static str {
+        self.0.id()
+    }
+    fn rule(&self) -> &'static str {
+        self.0.rule()
+    }
+    fn streams(&self, tier: Tier) -> Vec<spec::engine::StreamSpec> {
+        let mut s = self.0.streams(tier);
+        s.push(spec::engine::exhaustive("api-contexts", if tier == Tier::Miri { 0 } else { 2 }));
+        s
+    }
+    fn run_case(&self, stream: &str, idx: u64, seed: u64, rec: &mut Recorder) {
+        if stream == "api-contexts" {
+            if !spec::engine::layer().starts_with("miri") {
+                adapt::judge_digest_contexts(rec);
+            }
+            return;
+        }
+        self.0.run_case(stream, idx, seed, rec)
+    }
+    fn floor(&self, tier: Tier) -> Vec<&'static str> {
+        self.0.floor(tier)
+    }
+    fn replay(&self, case: &str, rec: &mut Recorder) {
+        self.0.replay(case, rec)
+    }
+    fn assumptions(&self) -> Vec<&'static str> {
+        self.0.assumptions()
+    }
+    fn cold_start(&self, rec: &mut Recorder) {
+        if std::env::var("VERIF_COLDSTART_CHILD").as_deref() == Ok("2") {
+            adapt::default_cold_start(rec);
+            self.0.cold_start(rec);
+        } else {
+            self.0.cold_start(rec);
+            adapt::default_cold_start(rec);
+        }
+    }
+}
+
 fn arg_after<'a>(args: &'a [String], flag: &str) -> Option<&'a str> {
     args.iter().position(|a| a == flag).and_then(|i| args.get(i + 1)).map(|s| s.as_str())
 }
@@ -79,9 +125,8 @@ fn main() {
         std::process::exit(if diffs.is_empty() { 0 } else { EXIT_INCONCLUSIVE });
     }
     let id = args.get(2).cloned().unwrap_or_default();
-    let mons = monitors();
-    let mon = match mons.iter().find(|m| m.id() == id) {
-        Some(m) => m,
+    let mon: Box<dyn Monitor> = match monitors().into_iter().find(|m| m.id() == id) {
+        Some(m) => Box::new(Wrapped(m)),
         None => {
             eprintln!("unknown property id {:?}", id);
             std::process::exit(EXIT_INCONCLUSIVE);
